@@ -4,6 +4,6 @@ CONSTANTS
  DrainBug = TRUE
  LinkCode = TRUE
  DupPathBug = TRUE
- Ids <- BigIds
+ Ids <- SimIds
 INVARIANTS PropHoldsButKnown KnownReproduced Ordered PassBound
 CHECK_DEADLOCK FALSE
